@@ -80,19 +80,27 @@ def run(ctx):
     def one(j):
         if ctx.violations:
             return j, None, 'skipped'       # a witness exists: skip the remaining runs
-        r = ctx.run([str(c) for c in j['cmd']], timeout=14400 if thorough else 900, stall_s=90, tag=j['tag'])
         what = '%s %s' % (j['flavour'], ' '.join(str(c) for c in j['cmd'][1:]))
-        st = ctx.absorb(r, what)
+        k = [0]
+
+        def runner():
+            k[0] += 1
+            return ctx.run([str(c) for c in j['cmd']], timeout=14400 if thorough else 900, stall_s=90, tag='%s-%d' % (j['tag'], k[0]))
+        # stall rule: a job that makes no progress is run again with the same input; twice = "no progress" violation keyed by the
+        # blocked frames, once = inconclusive (counted below)
+        r, st = ctx.run_with_stall_rule(runner, what)
+        if k[0] > 1 and st not in ('violation', 'known'): st = 'stalled'
         absorb_ubsan_stderr(ctx, r, what)
         return j, r, st
 
     res = ctx.pmap(one, [j for j in jobs if j['threads'] <= 4], jobs=3) + ctx.pmap(one, [j for j in jobs if j['threads'] > 4], jobs=2)
+    nstalled = 0
     for j, r, st in res:
         if r is None:
             continue
         what = '%s %s' % (j['flavour'], ' '.join(str(c) for c in j['cmd'][1:]))
         if st == 'stalled':
-            ctx.inconclusive_case('stalled: ' + what)
+            nstalled += 1
             continue
         s = r.summary()
         if not s:
@@ -111,5 +119,10 @@ def run(ctx):
             for k in ('ops', 'finds_other', 'shared_inserted', 'shared_removed', 'resizes', 'generations_after_grow_sum'):
                 ctx.add_cov('stress_' + k, s[k])
             ctx.add_cov('yield_hits', s['yield_hits'])
+    ctx.cov['jobs_stalled_once'] = nstalled
+    # hangs of a lock-protected structure are race dependent: the same input need not hang twice.  Many independent jobs each
+    # stalling once in ONE run is "no progress" all the same (on the unchanged tree no job ever stalled, loaded box included)
+    if nstalled >= 5 and nstalled * 4 >= len(res):
+        ctx.violation('ht:stall:recurring', '%d of %d jobs made no progress once each (not reproducible case by case)' % (nstalled, len(res)))
     ctx.cov['thread_counts'] = [1, 2, 3, 4, 8, 16]
     ctx.cov['flavours'] = ['asan', 'rel']
